@@ -1,8 +1,34 @@
+import DeapModel.Core.Resume
 import Driver.Proto
-/-! Protocol handler for C17 (stub until the model is built). -/
+/-! Protocol handler for C17 (checkpoint algebra, order-preserving parallel map). -/
 namespace DriverC17
+open Proto Resume
+
+/-- The mapped function of the `pmap` op. -/
+def f (x : Int) : Int := 3 * x + 1
+
+def parsePair (s : String) : Option (Int × Int) :=
+  match s.splitOn "," with
+  | [a, b] => do let x ← parseInt a; let y ← parseInt b; pure (x, y)
+  | _ => none
+
+def showPair (p : Int × Int) : String := toString p.1 ++ "," ++ toString p.2
+
+def parseDrop (s : String) : Option Bool :=
+  if s = "0" then some false else if s = "1" then some true else none
 
 def handle : List String → String
+  | ["pmap", xs, sched] =>
+    match (do let l ← parseList parseInt xs; let sc ← parseList parseNat sched; pure (l, sc)) with
+    | some (l, sc) => showOpt (showList toString) (pmap f l sc)
+    | none => "bad-op"
+  | ["resume", ns, ks, s0, ds] =>
+    match (do let n ← parseNat ns; let k ← parseNat ks; let s ← parsePair s0
+              let d ← parseDrop ds; if k ≤ n then pure (n, k, s, d) else none) with
+    | some (n, k, s, d) =>
+      let r := toyRun d
+      showPair (run r n s) ++ " " ++ showOpt showPair (resumeFrom r k n s)
+    | none => "bad-op"
   | _ => "bad-op"
 
 end DriverC17
